@@ -727,6 +727,6 @@ def TRUNC(
     if num_digits == 0:
         return math.trunc(number)
 
-    num_digits = int(num_digits)
-
-    return math.trunc(number * 10**num_digits) / 10**num_digits
+    # Truncate the decimal representation, as ROUNDDOWN does; scaling the
+    # binary float by a power of ten loses digits (TRUNC(0.29, 2) = 0.28).
+    return _round(number, num_digits, _rounding=decimal.ROUND_DOWN)
